@@ -1303,7 +1303,7 @@ var vtACSNames = map[byte]rune{
 func (t *tScreen) buildAcsMap() {
 	acsstr := t.ti.AltChars
 	t.acs = make(map[rune]string)
-	for len(acsstr) > 2 {
+	for len(acsstr) >= 2 {
 		srcv := acsstr[0]
 		dstv := acsstr[1:2] // the byte itself, not the UTF-8 encoding of its value
 		if r, ok := vtACSNames[srcv]; ok {
